@@ -224,6 +224,16 @@ var StoreRuntime = []byte{0x60, 0x20, 0x35, 0x60, 0x00, 0x35, 0x55, 0x00}
 // SuicideRuntime: selfdestruct to caller.
 var SuicideRuntime = []byte{0x33, 0xff}
 
+// EnvRuntime: writes the block environment into storage: slot k = BLOCKHASH(NUMBER-k) for k = 1..4,
+// slots 0x10.. = NUMBER, TIMESTAMP, COINBASE, DIFFICULTY, GASLIMIT. Whatever of it is not a function
+// of the chain shows in the state root.
+var EnvRuntime = []byte{
+	0x60, 0x01, 0x43, 0x03, 0x40, 0x60, 0x01, 0x55,
+	0x60, 0x02, 0x43, 0x03, 0x40, 0x60, 0x02, 0x55,
+	0x60, 0x03, 0x43, 0x03, 0x40, 0x60, 0x03, 0x55,
+	0x60, 0x04, 0x43, 0x03, 0x40, 0x60, 0x04, 0x55,
+	0x43, 0x60, 0x10, 0x55, 0x42, 0x60, 0x11, 0x55, 0x41, 0x60, 0x12, 0x55, 0x44, 0x60, 0x13, 0x55, 0x45, 0x60, 0x14, 0x55, 0x00}
+
 // RevertRuntime: sstore(0,1) then revert.
 var RevertRuntime = []byte{0x60, 0x01, 0x60, 0x00, 0x55, 0x60, 0x00, 0x60, 0x00, 0xfd}
 
